@@ -6,7 +6,6 @@ export CARGO_NET_OFFLINE=true
 mkdir -p .cache evidence replays
 ( cd coq && coq_makefile -f _CoqProject -o Makefile >/dev/null && timeout 3000 make -j"$(nproc)" 2>&1 | tail -5 )
 ./ocaml/build.sh
-( cd harness && cargo build --release --offline 2>&1 | tail -3 )
+( cd harness && cargo build --release --offline 2>&1 | tail -3 && cargo build --offline 2>&1 | tail -3 )
 .cache/target/release/lh alnum > .cache/alnum.txt
-[ -x bin/gen_certs.sh ] && ./bin/gen_certs.sh || true
 echo setup-ok
